@@ -7,19 +7,21 @@ open Common
 exception Model_out of string
 
 let m_pi = 0x1.921fb54442d18p+1
-let oracle : (string * float list * float option) list ref = ref []
-let feq (a : float) (b : float) = a = b || (Float.is_nan a && Float.is_nan b)
+(* the table is keyed by the name and the bit patterns of the arguments (-0.0 = 0.0 and all NaNs alike, as under IEEE equality);
+   the first entry for a key wins.  A hash table: chi-bar mixtures with hundreds of weights make tens of thousands of calls per case *)
+let oracle : (string * int64 list, float option) Hashtbl.t = Hashtbl.create 1024
+let key_of (a : float) : int64 = if a = 0.0 then 0L else if Float.is_nan a then 0x7ff8000000000000L else Int64.bits_of_float a
 let lookup (name : string) (args : float list) : float res =
-  let rec go = function
-    | [] -> failwith (Printf.sprintf "oracle_missing_%s(%s)" name (String.concat "," (List.map (Printf.sprintf "%h") args)))
-    | (n, a, v) :: r -> if n = name && List.length a = List.length args && List.for_all2 feq a args then v else go r in
-  match go !oracle with Some v -> Ok v | None -> Exit
+  match Hashtbl.find_opt oracle (name, List.map key_of args) with
+  | None -> failwith (Printf.sprintf "oracle_missing_%s(%s)" name (String.concat "," (List.map (Printf.sprintf "%h") args)))
+  | Some (Some v) -> Ok v
+  | Some None -> Exit
 let read_oracle r =
-  oracle := [];
+  Hashtbl.reset oracle;
   if more r then begin
     (match word r with "@" -> () | w -> failwith ("expected_@_got_" ^ w));
     let n = integer r in
-    oracle := List.init n (fun _ ->
+    for _ = 1 to n do
       let name = word r in
       let k = integer r in
       let args = List.init k (fun _ -> num r) in
@@ -27,7 +29,9 @@ let read_oracle r =
         | "nan" -> Some Float.nan | "inf" -> Some Float.infinity | "-inf" -> Some Float.neg_infinity
         | w when String.length w > 2 && (String.sub w 0 2 = "0x" || String.sub w 0 3 = "-0x") -> Some (float_of_string w)
         | _ -> None in
-      (name, args, v))
+      let key = (name, List.map key_of args) in
+      if not (Hashtbl.mem oracle key) then Hashtbl.add oracle key v
+    done
   end
 let gammaQ x a = lookup "gammaQ" [x; a]
 let gammaP x a = lookup "gammaP" [x; a]
